@@ -44,6 +44,21 @@ fn predicate_pairs<C: RealCurve>(pts: &[NamedPt<C::K>], mk: &dyn Fn(u64) -> C::K
             }
         }
     }
+    // order-r points of the isomorphic curves y^2 = x^3 + b u^6: (u^2 x, u^3 y) for subgroup points (x, y).
+    // The group-law formulas do not involve b, so such a pair is annihilated by r although it is off the curve.
+    for np in pts.iter().filter(|p| p.in_subgroup).take(4) {
+        if let Pt::Aff(x, y) = &np.p {
+            for k in [2u64, 3, 5, 0x1234567] {
+                let u = mk(k);
+                let (u2, u3) = (u.sq(), u.sq().mul(&u));
+                let (sx, sy) = (x.mul(&u2), y.mul(&u3));
+                if c.on_curve(&Pt::Aff(sx.clone(), sy.clone())) {
+                    continue;
+                }
+                v.push(Pair { name: format!("{} scaled onto an isomorphic curve (order r, off curve)", np.name), x: sx, y: sy, infinity: false, expect: false });
+            }
+        }
+    }
     // points of other curves y^2 = x^3 + b' (twists and other b)
     for (bi, b) in twist_bs.iter().enumerate() {
         let tc = Curve { a: C::K::zero(), b: b.clone() };
